@@ -179,6 +179,9 @@ func (hr *histRunner) history(hi int) *histObs {
 		if err != nil {
 			return nil
 		}
+		if kind != "reload" {
+			setDict(chk, funcs)
+		}
 		unitSrcs = append(unitSrcs, body)
 		unitFuncs = append(unitFuncs, funcs)
 		uo := unitObs{Kind: kind, Src: src, First: len(slots)}
